@@ -466,27 +466,30 @@ PROPS['C09'] = {'suites': [{'name': 'stream', 'quick': 1500, 'thorough': 30000}]
 PROPS['C10'] = {'suites': [{'name': 'decthread', 'quick': 500, 'thorough': 5000}, {'name': 'stream', 'quick': 300, 'thorough': 3000}],
  'technique': 'Lean 4 theorems about a labelled transition system (decoder-thread steps || audio callbacks || handle events || the sound being '
               'abandoned) whose steps are the functions of the streaming-sound model the twin runs: ranking argument for thread exit, inductive '
-              'invariants over all reachable states, concrete witnesses for the two clauses that are false; the twin is diffed against the REAL '
+              'invariants over all reachable states, a concrete witness for the one clause that is false; the twin is diffed against the REAL '
               "decoder thread held at kira's yield points decoder.loop.top / decoder.loop.before_error_push, and free-running real threads are "
               'watched through /proc/self/task, decoder Drop and call counters',
- 'level_text': 'Lean theorems over all decoders (no contract: any call may fail), all schedules: from ANY state in which the sound is Stopped the decoder '
-               'thread is gone after at most 3 of its own atomic steps (rank of its program counter; 2 loop iterations), whatever is interleaved, and the '
-               'sound stays Stopped (C10_thread_ends_partial/_rank); in every reachable state reached_end implies the thread has ended '
-               '(C10_thread_ends_at_end_of_data); every iteration whose run does not fail pushes exactly one frame, sleeps or ends '
-               '(C10_no_busy_spin_partial); an Err from run at any call position leads in two steps to the error pushed (if the slot is free) and the '
-               'flag set (C10_error_sets_flag), the next process marks Stopped, writes exact zeros, finished() (C10_error_stops_sound), the next '
+ 'level_text': 'Lean theorems over all decoders (no contract: any call may fail), all schedules: in every reachable state in which the sound is Stopped, the '
+               'data has ended, the sound was dropped (refused by a full track / discarded with its track or manager: is_abandoned()), a run has '
+               'failed or the error flag is set, the decoder thread is gone after at most 2 of its own atomic steps, whatever is interleaved, and the '
+               'reason never goes away (C10_thread_ends; from ANY state with the exact rank of the program counter: C10_thread_ends_rank, '
+               'C10_thread_ends_when_abandoned, C10_stopped_stays_stopped); in every reachable state reached_end implies the thread has ended '
+               '(C10_thread_ends_at_end_of_data); every step from the loop top pushes exactly one frame, or sleeps, or leaves the loop top for good '
+               'with the thread gone within 2 more steps (C10_no_busy_spin, C10_no_busy_spin_iteration); after the first error run is never called '
+               'again and a set flag means the thread has ended (C10_no_decoder_call_after_error); an Err from run at any call position leads in '
+               'two steps to the error pushed (if the slot is free), the flag set and the thread ended (C10_error_sets_flag), the next process marks Stopped, writes exact zeros, finished() (C10_error_stops_sound), the next '
                'on_start_processing of the track unloads it and a Stopped sound only ever writes zeros (C10_stopped_sound_is_unloaded_and_silent), and '
                'until the handle pops the 1-slot ring holds the FIRST error, which pop_error returns (C10_first_error_can_be_popped, invariant over '
                'reachable states); at any pace the ring is a window a..m-1 of the decoded sequence with a, m only growing (C10_ring_window_any_pace) and '
                'every rendered frame is the shaded Hermite interpolation of four consecutive entries or silence, entry a+1 itself at an integer '
                'position (C10_slow_decoder_gaps_only; C10_starving_process_is_silent). The twin agrees with the real thread step by step '
                '(exhaustively for streams <= 4 frames x failing call k x stop/drop/seek at every decoder position in the thorough tier)',
- 'level_note': 'PARTIAL, three clauses are false of the code and proved false: C10_frames_lost_while_starving (entries delivered one at a time while process '
-               'is mid-buffer with the ring dry are consumed unheard: more than one frame is lost; found by the real-thread slow-decoder oracle), '
-               'C10_thread_never_ends_when_abandoned (sound refused by a full track / '
-               'dropped with its track or manager: for every schedule the thread stays at its loop top) and C10_busy_spin_after_error (after an error '
-               'every iteration fails again at once: no push, no sleep, no end, until some process call marks Stopped - never, while the track is '
-               'paused); these two are reproduced on the real code on every run, the first one in about 1 run in 5 (KNOWN-FINDING). A sound waiting for its start time IS stopped by an error '
+ 'level_note': 'PARTIAL, one clause is false of the code and proved false: C10_frames_lost_while_starving (entries delivered one at a time while process '
+               'is mid-buffer with the ring dry are consumed unheard: more than one frame is lost; found by the real-thread slow-decoder oracle, '
+               'about 1 run in 5: KNOWN-FINDING). The two former findings (thread of an abandoned sound never ended; loop spun on a failed decoder) '
+               'are repaired in kira (622f8b6, 2b084b0), mirrored, proved at full strength and kept as regression cases '
+               '(corpus/decthread/fixed_*.ops). Residual by design of paused tracks: a sound that fails while its track is paused reports '
+               'Playing until the track resumes (no process call), although its thread is gone and the error can be popped at once. A sound waiting for its start time IS stopped by an error '
                '(the flag test is the first statement of process): the design note claiming otherwise was wrong. Wall-clock bounds, OS scheduling '
                'and sleep granularity are observed by the real-thread oracles only; SeqCst interleavings (weak memory unmodelled)',
  'assumptions': ['sequentially consistent interleaving of the labelled steps (all kira atomics are SeqCst; rtrb is a linearizable SPSC queue)',
